@@ -31,6 +31,7 @@ class FileSpec:
         self.lines = []                   # list of (list of Seg, terminator)
         self.entry_repeated = False
         self.glob = None
+        self.group = None                 # a recursive glob entry (tree/**/name) through which this file and its twin are configured
 
     def render(self, prj_render, version, old_version=None):
         out = []
@@ -75,7 +76,7 @@ CFG_PREFIXES = ["", "", "", "[bumpversion]\ncurrent_version = {q}none{q}\n\n", "
                 "[bumpver_old]\ncurrent_version = {q}n/a{q}\nversion_pattern = {q}MAJOR.MINOR.PATCH{q}\n\n", "[metadata]\nversion = {q}1.0{q}\n\n"]
 
 
-def gen_project(r, impl, legacy=False, max_files=5, allow_mixed=True, n_files=None, allow_dup=False, force=None):
+def gen_project(r, impl, legacy=False, max_files=5, allow_mixed=True, n_files=None, allow_dup=False, force=None, tree=False):
     """Returns dict(vp, flags, old, files=[FileSpec], date).  The config file itself is bumpver.toml."""
     vp, flags = force if force else r.choice(V1_PATTERNS if legacy else VERSION_PATTERNS)
     d = dt.date(2001, 1, 1) + dt.timedelta(days=r.randrange(0, 30000))
@@ -136,6 +137,16 @@ def gen_project(r, impl, legacy=False, max_files=5, allow_mixed=True, n_files=No
         if r.random() < 0.15:
             fs.entry_repeated = True
         files.append(fs)
+    # one file reached, together with a twin two directories deeper, through a single recursive glob entry
+    if tree and files and r.random() < 0.3 and not files[0].entry_repeated:
+        import copy, os as _os
+        f0 = files[0]
+        base = _os.path.basename(f0.path)
+        tree = "tree%d" % r.randrange(100)
+        twin = copy.deepcopy(f0)
+        f0.path, twin.path = tree + "/" + base, tree + "/deep/er/" + base
+        f0.group = twin.group = tree + "/**/" + base
+        files.append(twin)
     return dict(vp=vp, flags=list(flags), old=old, files=files, date=d, legacy=legacy, cfg_prefix=r.choice(CFG_PREFIXES), key_comment=r.random() < 0.25, dot_slash=r.random() < 0.5)
 
 
@@ -144,7 +155,9 @@ def to_temp_project(project, spec, **kw):
     import os
     files, contents = {}, {}
     for fs in spec["files"]:
-        if fs.entry_repeated and "/" in fs.path and len(fs.patterns) > 1:
+        if fs.group:
+            files[fs.group] = list(fs.patterns)
+        elif fs.entry_repeated and "/" in fs.path and len(fs.patterns) > 1:
             # the same file reached through a glob entry and an explicit entry
             d, base = os.path.split(fs.path)
             stem, ext = os.path.splitext(base)
